@@ -5,6 +5,7 @@ import (
 	"net"
 	"os"
 	"sort"
+	"strings"
 	"sync"
 	"testing"
 	"time"
@@ -428,8 +429,39 @@ func s15dial(name string, dial time.Duration) *sched.Scenario {
 		}}
 }
 
+// S17: the operator's lifecycle handlers call back into the server's own API (Server.AllocationCount, what a
+// metrics handler does) on every path that ends an allocation: lifetime expiry (c1) racing a Refresh 0 (c2), then
+// Server.Close. A handler invoked under the allocation manager's lock would lock up there.
+func s17() *sched.Scenario {
+	return &sched.Scenario{Name: "S17-lifecycle-handlers-call-back-into-the-server", Bound: bound(), FreeBound: -1, Opt: opt,
+		Body: func(*vsched.Sched) (func() []string, func()) {
+			var w *sched.BW
+			w = sched.NewBW(sched.BCfg{CB: func(kind string) {
+				// (the allocation handlers: the library calls them outside its locks on every path. The permission and
+				// channel handlers run under the allocation's locks and, in a teardown, under the manager's: DESIGN section 6, observation)
+				if w != nil && strings.HasPrefix(kind, "alloc") {
+					_ = w.Srv.AllocationCount()
+				}
+				vsched.Point("callback", "count")
+			}})
+			c1, c2 := w.NewClient("c1"), w.NewClient("c2")
+			var f flags
+			vsched.Go("client", func() {
+				c1.Do(wire.Allocate, func(b *wire.B) { udp(b); b.U32(wire.AttrLifetime, 1) })
+				c2.Do(wire.Allocate, udp)
+				vsched.IdleSleep(time.Second - time.Nanosecond)
+				vsched.Mark()
+				c2.Do(wire.Refresh, lifetime(0))
+				vsched.IdleSleep(2 * time.Second)
+				f.set("client")
+			})
+
+			return f.need("client"), func() { _ = w.Srv.Close() }
+		}}
+}
+
 func scenarios() []*sched.Scenario {
-	return []*sched.Scenario{s1(), s2(), s3(), s4(), s5(), s6(), s7(), s8(), s10(), s11(), s12(), s13(), s14(), s15(), s16()}
+	return []*sched.Scenario{s1(), s2(), s3(), s4(), s5(), s6(), s7(), s8(), s10(), s11(), s12(), s13(), s14(), s15(), s16(), s17()}
 }
 
 func TestC18Sched(t *testing.T) {
